@@ -43,11 +43,11 @@ Definition res_eqb (m : result (list str)) (i : list str + nat) : bool :=
   | _, _ => false
   end.
 
-(* region: 1 = some line has text before "@type" (recorded defect), 2 = some other line is not
-   clean (markers glued to other text / several markers on one line: outside the word-level
-   specification), 0 = the domain of C03_admon_words *)
-Definition admon_region (l : list str) : nat :=
-  if existsb pretext_region l then 1 else if admon_ok l then 0 else 2.
+(* region: 2 = some line is not clean (markers glued to other text / several markers of a kind on
+   one line: outside the word-level specification), 0 = the domain of C03_admon_words.
+   (Region 1, text before a start marker, was the recorded defect doc-text-before-note-dropped;
+   it is repaired and belongs to region 0 now.) *)
+Definition admon_region (l : list str) : nat := if admon_ok l then 0 else 2.
 
 (* Spec on the implementation's output: no word dropped, duplicated or reordered; an exception
    is not a silent loss, but on clean lines only the two documented exceptions may occur
